@@ -368,6 +368,12 @@ static void v_once(const plan_t *p)
             break;
         case V_SWAP: {
             int u = 1 - s, t;
+            if (o->a[1] % 8 == 3) {
+                TRY(cstl_vector_swap(v, v));
+                if (g_aborted) VIOL("abort", "swap aborted");
+                PROBE("self_swap"); EVT("swap_self", s, 0, 0);
+                break;
+            }
             if (nv < 2) { EVT("skip", 0, 0, 0); break; }
             TRY(cstl_vector_swap(v, &vec[u]));
             if (g_aborted) VIOL("abort", "swap aborted");
